@@ -167,6 +167,14 @@ def run(tier, seed):
              for offer in OFFERS for banner in BANNERS]
     st = par.pmap(work, tasks)
     par.pmap(work_faults, fault_tasks(tier), stats=st)
+    vcases = []
+    for sub, style, offer, banner in H.pick(tasks, seed, 16 if tier == 'quick' else 80):
+        vcases.append({'label': 'gex %s %s %s %s' % (sub, style, offer, banner), 'opts': ['-n'] + (['-j'] if len(vcases) % 2 else []),
+                       'make': (lambda sub=sub, style=style, offer=offer, banner=banner: make_server(sub, style, offer, banner))})
+    for sub, style, banner, plan in H.pick(fault_tasks(tier), seed, 10 if tier == 'quick' else 50):
+        vcases.append({'label': 'gexfault %s %s' % (sub, plan), 'opts': ['-n'], 'faults': {tuple(k): tuple(f) for k, f in plan},
+                       'make': (lambda sub=sub, style=style, banner=banner: make_server(sub, style, 'both', banner))})
+    validated = H.validate_traces(vcases, st)
     return evidence.finish(
         PID, tier, seed, st, t0,
         rule='every subset of %s (%d) x selection style {strict, round-up, OpenSSH with fallback} x offered {sha1, sha256, both} x banner '
@@ -174,7 +182,7 @@ def run(tier, seed):
              'refuse, timeout) at every probe connection of three representative servers' % (sizes, 2 ** len(sizes)),
         assumptions=['expected size is read from the scripted server\'s own log of GEX requests and groups handed out',
                      'OpenSSH selection style modelled after dh.c choose_dh()'],
-        exhaustive=True, extra={'servers': len(tasks)})
+        exhaustive=True, traces_validated=validated, extra={'servers': len(tasks)})
 
 
 def replay(path):
